@@ -34,7 +34,7 @@ Definition entries : list (Z * (data -> data)) :=
     (* 1502: (finished ops) -> (ok  first crash point with a bad file | -1   first crash point that loses a row | -1) *)
     (1502, fun d => let fin := dmap dZ (dnth 0 d) in let tr := dmap d_op (dnth 1 d) in
                     L [ebool (ok_trace fin tr); e_optnat (first_bad (ok_survivors fin) (disks fs0 tr) 0);
-                       e_optnat (first_loss (disks fs0 tr) 0)]);
+                       e_optnat (first_loss (disk fs0) (steps fs0 tr) 1)]);
     (* 1503: (ops k) -> the files after a kill at operation k *)
     (1503, fun d => e_files (crash fs0 (dmap d_op (dnth 0 d)) (dnat (dnth 1 d))));
     (* 1504: (finished files) -> ok_survivors *)
